@@ -473,3 +473,18 @@ Fixpoint observe (s : st) (ops : list op) : list val :=
 End WithCfg.
 
 Definition run_case (v : variant) (c : cfg) (ops : list op) : val := VL (observe c v st0 ops).
+
+(* ---- kernel/src/lib.rs run_service_loop, the RegisterNexthop / UnregisterNexthop
+   arms: [watched : HashMap<IpAddr, u32>] (an absent address counts 0) and the
+   NexthopUpdate emitted by the registration that makes an address watched.
+   (The u32 counter cannot overflow below 2^32 simultaneous registrations.) *)
+Definition svc_step (acc : (N -> N) * list N) (r : req) : (N -> N) * list N :=
+  let w := fst acc in
+  match r with
+  | Reg a => let n := w a + 1 in
+             (fun b => if b =? a then n else w b, snd acc ++ (if n =? 1 then [a] else []))
+  | Unreg a => (fun b => if b =? a then (if w a <=? 1 then 0 else w a - 1) else w b, snd acc)
+  | Apply _ _ _ => acc
+  end.
+Definition svc_run (reqs : list req) : (N -> N) * list N := fold_left svc_step reqs (fun _ => 0, []).
+Definition run_ref (reqs : list req) : val := VNs (snd (svc_run reqs)).
